@@ -3,6 +3,7 @@ import Ivg.Lemmas.RenderHistQ
 import Ivg.Lemmas.Grad64e
 import Ivg.Gen.Tie.GradientFields
 import Ivg.Gen.Tie.RendererFields
+import Ivg.Gen.Tie.Code.Clamp
 import Ivg.Obligations
 /-!
 # C15 — gradient paints
@@ -631,4 +632,11 @@ end Ivg.Props.C15
   Ivg.Props.C15.renderer_gradient_f64,
   Ivg.Props.C15.initGradient_f64,
   Ivg.Gen.Tie.renderer_fields_tie,
-  Ivg.Gen.Tie.gradient_fields_tie]
+  Ivg.Gen.Tie.gradient_fields_tie,
+  -- regenerated code (translator, Ivg/Gen/Code) = model, for all inputs: Clamp
+  Ivg.Gen.Tie.spread_Clamp_code_tie,
+  Ivg.Gen.Tie.gradient_GradientShape_code_tie,
+  Ivg.Gen.Tie.gradient_SpreadMethod_code_tie,
+  Ivg.Gen.Tie.gradient_Transform_code_tie,
+  Ivg.Gen.Tie.makeRange_code_tie,
+  Ivg.Gen.Tie.makeRange_code_tie_model]
